@@ -26,7 +26,7 @@ HDR = ("SUBSET", "SAME-DOC")
 def gen_case(seed, thorough_big=False):
     r = random.Random(seed)
     while True:
-        g = m.Gen(r, size=3.0 if thorough_big else 1.0, xta_safe=True)
+        g = m.Gen(r, size=2.5 if thorough_big else 1.0, xta_safe=True)
         M = g.model()
         if M["procs"]:          # a system line without processes is a syntax error in both formats, and not the same text
             break
@@ -208,7 +208,7 @@ def run(ctx):
     shapes = set()
     tot = {"templates": 0, "locations": 0, "branchpoints": 0, "edges": 0, "insts": 0, "procs": 0}
     for i in range(n):
-        M, prefs = gen_case(ctx.rng.getrandbits(48), ctx.thorough and i % 4 == 0)
+        M, prefs = gen_case(ctx.rng.getrandbits(48), (ctx.thorough and i % 4 == 0) or (not ctx.thorough and i % 7 == 0))
         cases["c%d" % i] = (M, prefs)
         st = m.model_stats(M)
         for k, v in st.items():
